@@ -199,6 +199,15 @@ def run_e2e(sh, ctx):
 	rng = random.Random(f'C03-e2e-{ctx.seed}-{sh["sub"]}')
 	for wi in range(sh['nworlds']):
 		w = W.designed_world(rng)
+		if wi % 2 == 0:
+			# constructed, not left to the draw: the taxon that must be reported as 'next' is one the database marks as not reportable
+			# (a hidden sub-group directly below the prediction) - 'next' is defined by thresholds only
+			for qi in range(len(w.queries)):
+				ex = w.expected_nonstrict(qi)
+				for gi in ex['closest_candidates']:
+					nx = ex['per'][gi]['next']
+					if nx is not None and qi % 2 == 0:
+						nx.report = False
 		d = w.write_db(ctx.workdir / f'w{wi}')
 		qs = w.write_query_sigs(ctx.workdir / f'w{wi}_q.gs')
 		desc = w.describe()
@@ -242,6 +251,8 @@ def run_e2e(sh, ctx):
 				            report=None if e['report'] is None else w.tinfo[e['report'].i]['key'])
 				if exp['dmin'] in [t.thr for t in w.taxa]:
 					ctx.count('e2e_distance_exactly_on_a_threshold')
+				if e['next'] is not None and not e['next'].report:
+					ctx.count('e2e_next_taxon_is_a_hidden_one')
 				for f in ('pred', 'next', 'report'):
 					if got[f] != want[f]:
 						mech = {'pred': 'prediction-wrong', 'report': 'report-taxon-wrong'}.get(f) or ('next-taxon-without-threshold' if got[f] and key2t[got[f]].thr is None else 'next-taxon-wrong')
@@ -289,7 +300,7 @@ def run_shard(sh, ctx):
 
 def finalize(merged, tier, seed, inconclusive):
 	c = merged['counters']
-	for n in ['lineages', 'lineages_with_thresholdless_leaf', 'distance_exactly_on_threshold', 'tied_minimum', 'e2e_api_queries', 'e2e_cli_commands', 'e2e_distance_exactly_on_a_threshold', 'distance_is_the_single_precision_value_of_a_threshold', 'lineages_deeper_than_recursion_limit', 'preceding_calls:keywords']:
+	for n in ['lineages', 'lineages_with_thresholdless_leaf', 'distance_exactly_on_threshold', 'tied_minimum', 'e2e_api_queries', 'e2e_cli_commands', 'e2e_distance_exactly_on_a_threshold', 'distance_is_the_single_precision_value_of_a_threshold', 'lineages_deeper_than_recursion_limit', 'preceding_calls:keywords', 'e2e_next_taxon_is_a_hidden_one']:
 		if c.get(n, 0) == 0:
 			inconclusive.append(f'class never observed: {n}')
 	return dict(exhaustive=True, max_depth=max(merged['sets'].get('depths', {0})),
